@@ -41,10 +41,12 @@ def scenarios():
     S.append(("inbound-small", dict(),
               [W.publish("a/b", b"", 0), W.publish("a/b", b"x", 1, 7), W.publish("é/€", b"hello", 2, 8, 0, 1), W.ack("PUBREL", 8),
                W.publish("a", b"y", 2, 9, 1), W.publish("a", b"y", 2, 9, 1), W.ack("PUBREL", 9), W.ack("PUBREL", 9)]))
-    S.append(("inbound-127-128", dict(), [W.publish("t", b"\xa5" * 122, 0), W.publish("t", b"\xa5" * 123, 0), W.publish("t", b"z" * 100, 1, 300), W.PINGRESP]))
+    # remaining lengths 127, 128, 129, 256 (topic "t": 3 bytes of variable header at QoS 0, 5 at QoS 1)
+    S.append(("inbound-127-128", dict(), [W.publish("t", b"\xa5" * 124, 0), W.publish("t", b"\xa5" * 125, 0), W.publish("t", b"z" * 124, 1, 300),
+                                          W.publish("t", b"y" * 253, 0), W.PINGRESP]))
     S.append(("dup-acks", dict(pubs=[1, 1]), [W.ack("PUBACK", 2), W.ack("PUBACK", 2), W.ack("PUBACK", 9), W.ack("PUBACK", 1)]))
     S.append(("release", dict(pubs=[2, 2], recs=[1]), [W.ack("PUBCOMP", 1), W.ack("PUBREC", 2), W.ack("PUBREC", 2), W.ack("PUBCOMP", 2)]))
-    S.append(("inbound-16383-16384", dict(), [W.publish("t", big[:16378], 0), W.publish("t", big[:16379], 1, 2), W.ack("PUBREL", 1), W.PINGRESP]))
+    S.append(("inbound-16383-16384", dict(), [W.publish("t", big[:16380], 0), W.publish("t", big[:16379], 1, 2), W.ack("PUBREL", 1), W.PINGRESP]))
     S.append(("inbound-long", dict(), [W.publish("long/topic", big + big[:4000], 2, 77), W.ack("PUBREL", 77), W.publish("q", b"tail", 0)]))
     S.append(("keepalive", dict(ka=5), [W.PINGRESP, W.publish("k", b"v", 1, 1), W.PINGRESP]))
     S.append(("malformed-last", dict(pubs=[1]), [W.ack("PUBACK", 1), W.publish("a", b"ok", 0), bytes([0x30, 0x03, 0x00, 0x09, 0x61])]))
